@@ -2,6 +2,7 @@
 Generated try/throw/catch/finally programs printed with the real macros of include/relic_err.h."""
 import hashlib, os
 
+GENERATED = ["params"]
 TRUSTED = [
     "setjmp/longjmp and the C compiler are modelled (a throw transfers to the frame ctx->last points to), not verified",
     "the generated C programs print the AST with the real RLC_TRY/RLC_CATCH/RLC_CATCH_ANY/RLC_FINALLY/RLC_THROW macros; the printer "
@@ -197,7 +198,63 @@ def streams(ctx, scale=1):
     lines = ["cfg"] + ["prog %d %s" % (i, enc(p) or "a0;") for i, p in enumerate(progs)]
     ctx._c19_progs = progs
     ctx._c19_dir = d
-    return [{"name": "progs-base", "cfg": "base", "exe": exe, "lines": lines}]
+    return [{"name": "progs-base", "cfg": "base", "exe": exe, "lines": lines}, reparam_stream(ctx, scale)]
+
+
+def reparam_stream(ctx, scale=1):
+    """'after any sequence of parameter selections the library computes exactly what a freshly initialised library with the last
+    selection computes': every ordered pair (and some longer orders) of the selectable curves is activated in one process; after each
+    selection a probe set (parameter getters, add/dbl, every multiplication variant, encodings) runs.  The driver judges every line
+    against the specification under the *last* selection (and the ep_param line against the table extracted from the source), and
+    postprocess() compares every output with the output of a fresh process that made only the last selection."""
+    import subprocess
+    import props.c03 as c03, props.c07 as c07
+    exe = c03._exe(ctx, "base")
+    ids = [cid for cid in c03.CURVES["base"]]
+    probes, fresh = {}, {}
+    nprobe = (25 if ctx.tier == "quick" else 200) * scale
+    for cid in list(ids):
+        kv = c03.curve_info(exe, cid)
+        if "p" not in kv:
+            ids.remove(cid)
+            continue
+        cv = c03.Cv(kv)
+        pl = c03.gen_lines(ctx.rng, cv, nprobe)[:nprobe] + c07.enc_lines(ctx.rng, cv, nprobe // 2)
+        pl = [l for l in pl if not l.startswith("#")]
+        probes[cid] = pl
+        inp = ["cfg", "ep_param %d" % cid] + pl
+        out = subprocess.run([exe], input="\n".join(inp) + "\n", stdout=subprocess.PIPE, stderr=subprocess.DEVNULL, text=True, timeout=300).stdout.split("\n")
+        for l, o in zip(inp[1:], out[1:]):
+            fresh[(cid, l)] = o
+    orders = [(a, b) for a in ids for b in ids if a != b]
+    for _ in range(4 * scale):
+        perm = list(ids)
+        for i in range(len(perm) - 1, 0, -1):
+            j = ctx.rng.below(i + 1)
+            perm[i], perm[j] = perm[j], perm[i]
+        orders.append(tuple(perm))
+    orders += [(a, a) for a in ids[:2]]
+    lines = ["cfg"]
+    for order in orders:
+        for k, cid in enumerate(order):
+            lines.append("ep_param %d" % cid)
+            last = k == len(order) - 1
+            lines += probes[cid] if last else probes[cid][:4]
+    ctx._c19_fresh = fresh
+    return {"name": "reparam-base", "cfg": "base", "exe": exe, "lines": lines}
+
+
+def postprocess(ctx, recs):
+    fresh = getattr(ctx, "_c19_fresh", None)
+    if not fresh:
+        return
+    for r in recs:
+        if r["stream"] != "reparam-base" or not r.get("context") or r["got"].startswith("CRASH"):
+            continue
+        cid = int(r["context"].split()[1])
+        exp = fresh.get((cid, r["line"]))
+        if exp is not None and exp != r["got"] and not r["verdict"].startswith("FAIL"):
+            r["verdict"] = "FAIL S model=[] spec=[%s] got=[%s] differs-from-a-fresh-library-with-the-last-selection" % (exp[:300], r["got"][:300])
 
 
 def search_streams(ctx, mfail):
@@ -235,6 +292,9 @@ def dec(txt):
 
 
 def replay_streams(ctx, rp):
+    if rp.get("op_lines") and not rp["op_lines"][0].startswith("prog"):
+        # a re-parameterisation failure depends on the whole order of selections: re-run the stream of orders
+        return [reparam_stream(ctx, 1)]
     # a replay carries the program text; rebuild exactly those programs
     global CORPUS
     saved = CORPUS
